@@ -8,6 +8,24 @@ ROOT = os.path.dirname(os.path.dirname(os.path.abspath(__file__)))
 
 # id -> (design_ref, text, note, technique)
 CLAIMED = {
+    "C08": ("5/C08",
+            "An implementation-level TLA+ model of BatchedWriter (Enqueue in 4 steps, writer loop with receive/flush/time-out, collector, "
+            "Commit, Done callbacks, Stop) is checked by TLC for ALL interleavings of 2 producers x 2 objects (no loss, write-before-done, "
+            "Stop waits, all-or-nothing, nobody stuck under fairness) with 4 negative-control variants; TLC's counterexamples of the two "
+            "defects the code had are replayed on the real writer through two verif yield points, and every forced or free-running "
+            "execution (2-6 producers, queue 0-4, batch 1-3, time-outs 1-50 ms, Flush, GOMAXPROCS(1)) is validated by TLC against the "
+            "API-level trace spec.",
+            "Model: 2 producers, 2 objects, queue 1, batch 2; real-code interleavings only through the two yield points, callbacks and free running.",
+            "TLA+ impl-level model (TLC, all interleavings) + API-level trace spec, forced schedules via yield points, TLC trace validation"),
+    "C13": ("5/C13",
+            "An implementation-level TLA+ model of the reactive Variable (update-order mutex, value mutex, per-callback execution lock, "
+            "snapshot, unsubscribe) is checked by TLC for ALL interleavings of 2 writers x 2 writes, 2-3 subscribers and an unsubscriber "
+            "(gap-free in-order chain, no overlap, none after unsubscribe, last = final) with 3 negative-control variants; their "
+            "counterexamples are replayed on the real Variable and Set through callback gates and verif yield points, and every forced or "
+            "free-running execution of Variable, Set and Event is validated by TLC against the API-level observation spec (one chain of "
+            "changes shared by all observers, fold of set mutations = contents, OnTrigger exactly once).",
+            "Impl-level model only for Variable (Set shares the scheme); interleavings on the real code through 6 yield points, callbacks and free running.",
+            "TLA+ impl-level model (TLC, all interleavings) + API-level observation spec, forced schedules, TLC trace validation"),
     "C04": ("5/C04",
             "A TLA+ module models every view/wrapper/batch operation of the kvstore as an operation on ONE ordered map keyed by "
             "realm||key; TLC checks realm isolation, iteration order/prefix/stop, DeletePrefix/Clear exactness, batch last-op-wins, "
